@@ -58,6 +58,7 @@ def gen_case(rng, npools=1, style="mix", stop=True, cancels=True):
     ops = []
     cur = clock
     ntask = 0
+    untils = []        # wake-up times asked for so far: a clock step may land exactly on one
     ticks = 0          # total of all Tick instructions submitted so far: the model clock never exceeds cur + ticks
     tpool = []
     stopped = set()
@@ -69,6 +70,7 @@ def gen_case(rng, npools=1, style="mix", stop=True, cancels=True):
             prio = None if pr < 0.5 else str(rng.choice([0, 1, 1, -1, 2, I64MIN, I64MAX]))
             body = gen_task(rng, uid, cur, style)
             ticks += sum(int(i["d"]) for i in body if i["i"] == "tick")
+            untils += [int(i["t"]) for i in body if i["i"] == "until"]
             ops.append({"op": "submit", "p": p, "body": body, "prio": prio})
             ntask += 1
             tpool.append(p)
@@ -78,7 +80,11 @@ def gen_case(rng, npools=1, style="mix", stop=True, cancels=True):
             ops.append({"op": "pass", "p": p, "deadline": str(min(deadline, U64))})
         elif k < 0.70:
             # time never goes backwards: step past every tick that may have run meanwhile
-            cur = min(U64 // 1000 * 1000, cur + ticks + rng.choice([1, 2, 5, 20, 200]) * 1000)
+            exact = [t for t in untils if t >= cur + ticks]
+            if exact and rng.random() < 0.4:
+                cur = min(exact)          # land exactly on a wake-up time (the boundary of "due")
+            else:
+                cur = min(U64 // 1000 * 1000, cur + ticks + rng.choice([1, 2, 5, 20, 200]) * 1000)
             ops.append({"op": "clock", "c": str(cur)})
         elif k < 0.80:
             t = rng.randrange(ntask)   # a join handle asks the loop the task was submitted to
